@@ -77,6 +77,11 @@ func (e *Engine) Generate(r *core.Rand, prop string, tier string) core.Trace {
 	if r.Bool() {
 		g.mems = append(g.mems, "m1")
 	}
+	if r.Chance(1, 4) {
+		// a memory space that carries the name of a register (two name
+		// spaces: they have nothing to do with each other)
+		g.mems = append(g.mems, g.regs[r.Intn(len(g.regs))])
+	}
 
 	t := &Trace{VSeed: r.Uint64() >> 12}
 	n := r.Range(1, 14)
